@@ -4,6 +4,9 @@
 
 Checked on the returned vectors only (no oracle for the numerical estimates themselves): one finite value per
 PSM, range, monotone in the score, equal on ties, and alignment = permuting the input permutes the output.
+For the qvality algorithm alignment is additionally checked against triqler itself: the PSM holding the k-th best
+score must carry the PEP that triqler.qvality.getQvaluesFromScores lists at rank k (qvality_reference); this runs on
+the random mixtures and on extra inputs with planted tie groups (gen_tie_case).
 
 The last clause of the property ("so the PEP column of every result file is aligned with its row") is checked on
 the files written by assign_confidence (check pep_column_of_result_files), for a higher-is-better score
@@ -94,6 +97,95 @@ def _same(a, b):
     return (a == b) | (np.abs(a - b) <= TOL)
 
 
+TIE_PATTERNS = ("top-group", "middle-group", "several-groups", "integer-scores", "duplicated-psms",
+                "target-decoy-pairs", "half-unit-scores", "top-and-bottom-groups")
+TIE_ORDERS = ("random", "best-first", "worst-first")
+TIE_HI = 130                                   # planted-tie cases: 50..129 targets and decoys each, in both tiers
+
+
+def gen_tie_case(seed, k, hi=130):
+    """The mixture of gen_case with exactly equal scores planted by rank: one group of 2..8 PSMs at the very top / in
+    the middle (starting at a rank between 1 and the number of correct targets, where the PEP still varies) / at top
+    and bottom, 3..6 groups of 2..10 PSMs anywhere, scores rounded to integers or to 0.5 (5..20 distinct values),
+    30..100% of the PSMs present twice, 5..20 target-decoy pairs sharing a score; input order random, best first
+    (the order of the level files) or worst first."""
+    rng = np.random.default_rng([seed, k, 616])
+    pattern, order = TIE_PATTERNS[k % len(TIE_PATTERNS)], TIE_ORDERS[(k // len(TIE_PATTERNS)) % len(TIE_ORDERS)]
+    nt, nd = int(rng.integers(50, hi)), int(rng.integers(50, hi))
+    pi0, mu, sd = float(rng.uniform(0.2, 0.9)), float(rng.uniform(1.0, 5.0)), float(rng.uniform(0.5, 1.5))
+    loc, scale = float(rng.choice([0.0, -20.0, 3.0])), float(rng.choice([1.0, 1.0, 0.05, 40.0]))
+    inc = rng.random(nt) < pi0
+    s = np.concatenate([np.where(inc, rng.normal(0, 1, nt), rng.normal(mu, sd, nt)), rng.normal(0, 1, nd)])
+    lab = np.concatenate([np.ones(nt, dtype=bool), np.zeros(nd, dtype=bool)])
+    n = len(s)
+    o = np.argsort(-s, kind="stable")                     # o[r] = index of the PSM with rank r (best first)
+
+    def plant(start, g):                                  # ranks start .. start+g-1 all get the score of rank start
+        s[o[start:start + g]] = s[o[start]]
+
+    if pattern == "top-group":
+        plant(0, int(rng.integers(2, 9)))
+    elif pattern == "middle-group":
+        plant(int(rng.integers(1, max(2, int((~inc).sum())))), int(rng.integers(2, 9)))
+    elif pattern == "top-and-bottom-groups":
+        plant(0, int(rng.integers(2, 9)))
+        g = int(rng.integers(2, 9))
+        plant(n - g, g)
+    elif pattern == "several-groups":
+        m = int(rng.integers(3, 7))
+        starts = np.sort(rng.choice(n // 10 - 1, m, replace=False)) * 10      # disjoint windows of 10 ranks
+        for st in starts:
+            plant(int(st), int(rng.integers(2, 11)))
+    elif pattern == "integer-scores":
+        s = np.round(s)
+    elif pattern == "half-unit-scores":
+        s = np.round(s * 2) / 2
+    elif pattern == "duplicated-psms":
+        twice = rng.random(n) < rng.uniform(0.3, 1.0)
+        twice[rng.integers(n)] = True
+        s, lab = np.concatenate([s, s[twice]]), np.concatenate([lab, lab[twice]])
+    elif pattern == "target-decoy-pairs":
+        m = int(rng.integers(5, 21))
+        ti, di = rng.choice(nt, m, replace=False), nt + rng.choice(nd, m, replace=False)
+        s[ti[::2]] = s[di[::2]]                           # every other pair: the target takes the decoy's score,
+        s[di[1::2]] = s[ti[1::2]]                         # the rest: the decoy takes the target's score
+    s = s * scale + loc
+    if order == "random":
+        p = rng.permutation(len(s))
+    else:
+        p = np.argsort(-s if order == "best-first" else s, kind="stable")
+    perm = rng.permutation(len(s))
+    return s[p].astype(float), lab[p], perm, {"gen": "ties", "pattern": pattern, "order": order,
+                                              "n_targets": int(lab.sum()), "n_decoys": int((~lab).sum()),
+                                              "n_distinct_scores": int(len(np.unique(s)))}
+
+
+def qvality_reference(s, lab):
+    """Independent of mokapot: triqler's qvality called directly with the target and the decoy scores sorted best
+    first; with includeDecoys=True it returns one PEP per PSM for the merged scores in descending order, so the PSM
+    with the k-th best score owns the k-th value. PSMs sharing a score occupy a run of ranks: each of them may carry
+    any value triqler lists inside that run (they are equal anyway). Returns (lowest, highest) admissible PEP per
+    PSM, in the order of s."""
+    from triqler import qvality
+    t, d = np.sort(s[lab])[::-1].copy(), np.sort(s[~lab])[::-1].copy()
+    old, qvality.VERB = qvality.VERB, 0
+    try:
+        _, ref = qvality.getQvaluesFromScores(t, d, includeDecoys=True, includePEPs=True, tdcInput=False)
+    except BaseException as e:                           # noqa: BLE001  (triqler may call sys.exit)
+        raise RuntimeError("triqler reference failed: %s: %s" % (type(e).__name__, e))
+    finally:
+        qvality.VERB = old
+    ref = np.asarray(ref, dtype=float)
+    if ref.shape != s.shape:
+        raise RuntimeError("triqler reference returned %r values for %d PSMs" % (ref.shape, len(s)))
+    neg = np.sort(-s)                                     # the scores best first, negated (ascending)
+    first, last = np.searchsorted(neg, -s, side="left"), np.searchsorted(neg, -s, side="right") - 1
+    starts = np.flatnonzero(np.r_[True, neg[1:] != neg[:-1]])                # first rank of every run of equal scores
+    run = np.searchsorted(starts, first, side="right") - 1
+    assert np.all(starts[run] == first) and np.all(last >= first)
+    return np.minimum.reduceat(ref, starts)[run], np.maximum.reduceat(ref, starts)[run]
+
+
 def judge(est, s, lab, perm):
     """Run the real estimator on the input and on the permuted input. Returns (class id, what) or (None, None)."""
     f = _fn(est)
@@ -103,7 +195,9 @@ def judge(est, s, lab, perm):
     try:
         r1 = np.asarray(f(s.copy(), lab.copy()), dtype=float)
         r2 = np.asarray(f(s[perm].copy(), lab[perm].copy()), dtype=float)
-    except Exception as e:                               # noqa: BLE001
+    except KeyboardInterrupt:
+        raise
+    except BaseException as e:                           # noqa: BLE001  (triqler may call sys.exit)
         return "exception:" + type(e).__name__, str(e)[:160]
     for r, ss in ((r1, s), (r2, s[perm])):
         if r.shape != ss.shape:
@@ -133,12 +227,26 @@ def judge(est, s, lab, perm):
         return ("misaligned/" + tag,
                 "permuting the input does not permute the output the same way: %d of %d values differ, max |diff| %.3g"
                 % (int(bad.sum()), len(bad), float(np.nanmax(np.abs(np.where(bad, r2 - r1[perm], 0.0))))))
+    if est == "qvality":                                 # alignment by rank against triqler's own output
+        lo, hi = qvality_reference(s, lab)
+        bad = (r1 < lo - TOL) | (r1 > hi + TOL)
+        if np.any(bad):
+            o = np.argsort(-s, kind="stable")
+            i = int(o[np.argmax(bad[o])])                # the best-scoring PSM that is wrong
+            return ("not-qvality-pep-of-own-rank/" + tag,
+                    "%d of %d PSMs do not carry the PEP triqler's qvality lists for the rank of their score (scores "
+                    "merged best first), max |diff| %.3g; best-scoring such PSM: score %r, rank %d, PEP %r, triqler %r"
+                    % (int(bad.sum()), len(bad), float(np.max(np.abs(r1 - np.clip(r1, lo, hi)))), float(s[i]),
+                       int((s > s[i]).sum()), float(r1[i]), float(lo[i])))
     return None, None
 
 
 def _work(job):
     seed, k, big, hi, est = job
-    s, lab, perm, meta = gen_case(seed, k, big, hi)
+    if big == "ties":
+        s, lab, perm, meta = gen_tie_case(seed, k, hi)
+    else:
+        s, lab, perm, meta = gen_case(seed, k, big, hi)
     ties = len(np.unique(s)) < len(s)
     return k, meta, ties, est, judge(est, s, lab, perm)
 
@@ -272,10 +380,17 @@ def _dispatch(job):
 
 def run(tier, seed):
     n_cases = 60 if tier == "quick" else 600
+    n_tie = 24 if tier == "quick" else 240       # planted tie groups, qvality only (the estimator with a reference)
     assumptions = ["no oracle for the numerical value of a PEP / q-value (KDE, splines, NNLS): only finiteness, range, "
                    "monotonicity, ties and alignment of the returned vectors are checked, tolerance %g" % TOL,
                    "input domain: two-component normal mixtures with >= 50 targets and >= 50 decoys, location/scale "
-                   "variants, ties by rounding, every 5th case with a decoy as the best PSM"]
+                   "variants, ties by rounding, every 5th case with a decoy as the best PSM",
+                   "pep_qvality: the reference for 'the PEP belongs to the PSM' is triqler.qvality."
+                   "getQvaluesFromScores called directly by the harness (targets and decoys sorted best first, "
+                   "includeDecoys=True, includePEPs=True, tdcInput=False) and read by rank; triqler itself (the "
+                   "spline fit) is trusted, "
+                   "what is checked is that mokapot hands every PSM the value of its own rank. kde_nnls has no such "
+                   "reference here"]
     ests = []
     for est in PEP_ALGS + Q_ALGS:
         ok, why = runnable(est)
@@ -297,9 +412,24 @@ def run(tier, seed):
             + "never decreasing as the score worsens, equal for equal scores, result(permuted input) == permuted "
               "result; non-trivial = the scores contain ties (modes: no ties / all rounded to 0.1 / 40% rounded / all "
               "rounded to 0.01 / best PSM is a decoy)")
+    if "qvality" in checks:
+        ck = checks["qvality"]
+        ck.bound += ("; plus %d mixtures with planted tie groups (case k uses numpy seed [seed, k, 616]; 50..%d "
+                     "targets and decoys each, up to twice as many in the duplicated-psms pattern; patterns, k mod 8: "
+                     "%s; input order, (k div 8) mod 3: random / best first / worst first)"
+                     % (n_tie, TIE_HI - 1, " / ".join(TIE_PATTERNS)))
+        ck.rule += ("; on every case (mixtures and planted ties) additionally: the PEP of a PSM equals, within 1e-9, a "
+                    "value that triqler's qvality, called directly, lists at one of the ranks its score occupies when "
+                    "all scores are merged best first (equal scores occupy a run of ranks). Planted patterns: one "
+                    "group of 2..8 equal scores at the top / in the middle (start rank 1..number of correct "
+                    "targets) / at top and bottom, 3..6 groups of 2..10 at ranks anywhere, "
+                    "scores rounded to integers / to 0.5, 30..100% of the PSMs duplicated, 5..20 target-decoy "
+                    "pairs sharing a score")
     # one job per (case, estimator); the slow estimator (qvality: 0.02 .. 5 s per call) is scheduled first
     hi = 130 if tier == "quick" else 260
     jobs = [("est", (seed, k, tier != "quick" and k % 4 == 0, hi, est)) for est in ests for k in range(n_cases)]
+    if "qvality" in ests:
+        jobs += [("est", (seed, k, "ties", TIE_HI, "qvality")) for k in range(n_tie)]
     # the result files of assign_confidence: n_file data sets x 3 shapes x desc x 2 PEP algorithms
     n_file = 5 if tier == "quick" else 40
     file_jobs = [("files", (seed, k, shape, desc, alg)) for alg in FILE_ALGS for k in range(n_file)
@@ -323,7 +453,7 @@ def run(tier, seed):
                        "errors of the estimator (those are the pep_* checks); with descs=[False] the rows chosen by "
                        "deduplication and the q-values follow the high-score-first ranking (property C07) and are not "
                        "judged here" % FILE_CHECK)
-    with mp.get_context("fork").Pool(8) as pool:
+    with mp.get_context("fork").Pool(12) as pool:
         allres = pool.map(_dispatch, file_jobs[:n_slow] + jobs + file_jobs[n_slow:], chunksize=1)
     results = [r for r in allres if r[0] != "files"]
     fseen = set()
@@ -336,6 +466,8 @@ def run(tier, seed):
                 fck.violation(cid, what, {"seed": seed, "k": k, "shape": shape, "desc": desc, "peps_algorithm": alg,
                                           **meta})
     seen = set()
+    planted = [r for r in results if r[1].get("gen") == "ties"]
+    results = [r for r in results if r[1].get("gen") != "ties"]
     for k, meta, ties, est, (cid, what) in sorted(results, key=lambda r: (r[0], r[3])):
         if True:
             ck = checks[est]
@@ -344,6 +476,12 @@ def run(tier, seed):
                 seen.add((est, cid))
                 ck.violation(cid, what, {"seed": seed, "k": k, "big": tier != "quick" and k % 4 == 0, "hi": hi,
                                          "estimator": est, **meta})
+    for k, meta, ties, est, (cid, what) in sorted(planted, key=lambda r: r[0]):
+        ck = checks[est]
+        ck.case((seed, "ties", k, meta), nontrivial=ties)
+        if cid and (est, cid) not in seen:
+            seen.add((est, cid))
+            ck.violation(cid, what, {"seed": seed, "k": k, "hi": TIE_HI, "estimator": est, **meta})
     return [_freeze(c) for c in list(checks.values()) + [fck]], assumptions
 
 
@@ -356,7 +494,10 @@ def REPLAY(check_name, violation):
         same = [f for f in found if f[0] == violation.get("case")] or found
         return {"violated": bool(found), "case": same[0][0] if same else None,
                 "detail": same[0][1] if same else None, "all_cases": [f[0] for f in found]}
-    s, lab, perm, _ = gen_case(inp["seed"], inp["k"], inp.get("big", False), inp.get("hi", 130))
+    if inp.get("gen") == "ties":
+        s, lab, perm, _ = gen_tie_case(inp["seed"], inp["k"], inp.get("hi", 130))
+    else:
+        s, lab, perm, _ = gen_case(inp["seed"], inp["k"], inp.get("big", False), inp.get("hi", 130))
     cid, what = judge(inp["estimator"], s, lab, perm)
     return {"violated": cid is not None, "case": cid, "detail": what}
 
